@@ -87,6 +87,13 @@ func genAdversarialRecs(r *vk.RNG, n int) []Rec {
 		sets[0] = map[string]string{"job": "j", "a": "c", "c": "a"}
 		sets[1] = map[string]string{"job": "j", "a": "a", "c": "c"}
 	}
+	if r.Chance(1, 3) {
+		// label sets that read the same under common textual renderings of a set (Go's map printing,
+		// k=v lists, Prometheus text, JSON, NUL / 0xFF separated)
+		other := vk.Pick(r, []string{"b c:d", "b,c=d", "b, c=d", `b", c="d`, `b",c="d`, `b","c":"d`, "b\x00c\x00d", "b\xffc\xffd", "b\nc=d", "b c=d", "b;c=d"})
+		sets[0] = map[string]string{"job": "j", "a": "b", "c": "d"}
+		sets[1] = map[string]string{"job": "j", "a": other}
+	}
 	if nsets >= 4 && r.Bool() {
 		// a permutation family: the same three values spread over the same three names
 		vals := []string{"x", "y", "z"}
